@@ -48,7 +48,7 @@ func (c *c17) NumCases(tier string) int {
 	return 96
 }
 func (c *c17) Rule() string {
-	return "one case = a drawn state (5-40 interfaces in the running configuration only, a committed base intent with peers, leaf-list references and must operands) and one wide transaction of 1-3 intents (peers whose leafrefs point into the running-only interfaces, into the base intent, into the transaction itself or nowhere; leaf-lists of leafrefs; a relative leafref into /sys whose target exists only in running; must statements whose operands live in sibling leaves of other owners or only in running; range / length / pattern / min-max / mandatory violations; leaves with defaults) that is validated by dry-run TransactionSet 6 times with concurrent validators at GOMAXPROCS 16, 4, 2, 1, 16, 3 and twice with DisableConcurrency; all eight verdicts (per intent: sorted errors and warnings, addresses stripped) must be equal. The harness binary is built with the race detector; every report whose stack touches data-server code is a violation. distinct = state + transaction; non-trivial = the verdict holds at least one error and at least 16 goroutines more than before the call were alive at some entry into a validator (sampled at the tree.validate.enter hook); entries created in the tree while validators run are counted at the tree.addupdate.childMissing hook (the tree the datastore builds preloads defaults and the running store, so this count is 0 there). The same transaction is also validated on trees built with the tree package: as the datastore builds them (1 sequential + 3 concurrent), with key indexes that can only be loaded once validation has started, and without the running store, so that the validators of many list entries fetch the same running value on demand at the same time (leafref chk4 and must chk5 of list unit point to the top-level leaf /ifx; on_demand_loads_during_tree_validation counts the entries created while validators run); in each kind the concurrent verdicts must equal the sequential one"
+	return "one case = a drawn state (5-40 interfaces in the running configuration only, a committed base intent with peers, leaf-list references and must operands) and one wide transaction of 1-3 intents (peers whose leafrefs point into the running-only interfaces, into the base intent, into the transaction itself or nowhere; leaf-lists of leafrefs; a relative leafref into /sys whose target exists only in running; must statements whose operands live in sibling leaves of other owners or only in running; range / length / pattern / min-max / mandatory violations; leaves with defaults) that is validated by dry-run TransactionSet 6 times with concurrent validators at GOMAXPROCS 16, 4, 2, 1, 16, 3 and twice with DisableConcurrency; all eight verdicts (per intent: sorted errors and warnings, addresses stripped) must be equal. The harness binary is built with the race detector; every report whose stack touches data-server code is a violation. distinct = state + transaction; non-trivial = the verdict holds at least one error and at least 16 goroutines more than before the call were alive at some entry into a validator (sampled at the tree.validate.enter hook); entries created in the tree while validators run are counted at the tree.addupdate.childMissing hook (the tree the datastore builds preloads defaults and the running store; what validators still insert there are non-presence containers nobody configured, entered by the must chk3 of list unit on its way to /sys/log/level). The same transaction is also validated on trees built with the tree package: as the datastore builds them (1 sequential + 3 concurrent), with key indexes that can only be loaded once validation has started, and without the running store, so that the validators of many list entries fetch the same running value on demand at the same time (leafref chk4 and must chk5 of list unit point to the top-level leaf /ifx; on_demand_loads_during_tree_validation counts the entries created while validators run); in each kind the concurrent verdicts must equal the sequential one"
 }
 func (c *c17) Assumptions() []string {
 	return []string{
